@@ -48,7 +48,9 @@ func OpenFile(name string, flag int, perm FileMode) (*File, error) {
 	if err != nil {
 		return nil, err
 	}
-	return &File{f: f}, nil
+	// (the first read of a freshly opened file is a scheduling point like the first read after a seek)
+	vsched.Yield("file.Open")
+	return &File{f: f, afterSeek: true}, nil
 }
 
 func Open(name string) (*File, error)   { return OpenFile(name, O_RDONLY, 0) }
